@@ -20,6 +20,10 @@ Message description (`desc`, a plain dict; everything the encoder needs AND ever
               path (percent-decoded), query (raw), fragment, scheme, hostname, port (int|None)
   response:   status (int), reason (str, words joined by single blanks, may be ""), req_method ("GET"|"HEAD":
               the method of the request this answers; a parser needs it to know a HEAD response has no body)
+              interim  [[reason, [[name, value], ...]], ...]  interim "HTTP/1.1 100 <reason>" responses (status line,
+              0-2 header lines, blank line; same eol as the message) written BEFORE the final response and
+              included in raw.  A client must skip them: the ground truth of the message is the final response only.
+              [] unless asked for with the `interim` option.
   headers     [[name, value], ...] in wire order, names unique case-insensitively, wire form "Name: value"
   body        latin-1 str, the payload a parser must deliver (after de-chunking)
   chunks      (chunked only) [[size_token, [[extname, extval|None], ...], data], ...]  size_token is the
@@ -51,11 +55,14 @@ API
                                           share req_method; eol=None picks ONE style for the sequence, eol="mixed" picks
                                           a style per message.  The wire bytes are b"".join(s2b(d["raw"]) for d in seq)
   encode(desc) -> bytes                   (re)encode a description (after you changed fields yourself)
+  interim_bytes(desc) -> bytes            the interim-response prefix of raw (b"" when desc has none)
   two_splits(n), all_one_byte(n), random_cuts(rng, n, k), crlf_cuts(data), pieces(data, cuts)   partitions
       a partition is a sorted list of cut offsets 0 < c < len(data); pieces() applies it
 
   opts: eol="crlf"|"lf"|None(random)   framing=<framing>|None   version="1.1"|"1.0"|None   maxbody=int
         persist=True|False|None   req_method="GET"|"HEAD" (responses)   exts=True|False|None  trailers=True|False|None
+        interim=0|None (none, default) | 1 | 2 (that many 100-Continue interim responses) | "random" (about 1 response in 6
+        gets one, sometimes two)      interim_headers=0|1|2|None(random)      (responses only, never for HEAD)
 """
 import itertools
 import random  # noqa: F401  (callers pass random.Random instances)
@@ -396,6 +403,7 @@ def gen_response(rng, **opts):
     if framing == "chunked" and version == "1.0":
         raise ValueError("no chunked coding in HTTP/1.0")
     desc = dict(kind="response", eol=eol, version=version, req_method=req_method)
+    desc["interim"] = _interim(rng, opts) if req_method != "HEAD" else []
     extra = []
     if req_method == "HEAD":
         # answer to HEAD: headers as for GET (may announce a length), never a body
@@ -419,6 +427,43 @@ def gen_response(rng, **opts):
     return _finish(rng, desc, extra + _frame(rng, desc, body, opts))
 
 
+def _interim(rng, opts):
+    want = opts.get("interim")
+    if not want:
+        return []
+    if want == "random":
+        r = rng.random()
+        count = 0 if r < 0.83 else (1 if r < 0.96 else 2)
+    else:
+        count = int(want)
+    out = []
+    for _ in range(count):
+        nh = opts.get("interim_headers")
+        if nh is None:
+            nh = rng.choice([0, 0, 1, 2])
+        hs, seen = [], set()
+        while len(hs) < nh:
+            name = rng.choice(["Server", "X-Hint", "Date", "Link", "X-I" + _tok(rng, 1, 4)])
+            if name.lower() in seen:
+                continue
+            seen.add(name.lower())
+            hs.append([name, _hvalue(rng) or "v"])
+        out.append([rng.choice(["Continue", "Continue", "Continue", "Go On", ""]), hs])
+    return out
+
+
+def interim_bytes(desc):
+    """wire bytes of the interim responses that precede the final response of desc (b"" when none)"""
+    e = EOLS[desc["eol"]]
+    out = bytearray()
+    for reason, hs in desc.get("interim") or []:
+        out += s2b("HTTP/1.1 100 " + reason) + e
+        for n, v in hs:
+            out += s2b(n + ": " + v) + e
+        out += e
+    return bytes(out)
+
+
 def encode(desc):
     """Wire bytes of a description."""
     e = EOLS[desc["eol"]]
@@ -426,7 +471,7 @@ def encode(desc):
         start = "%s %s HTTP/%s" % (desc["method"], desc["target"], desc["version"])
     else:
         start = "HTTP/%s %d %s" % (desc["version"], desc["status"], desc["reason"])
-    out = bytearray(s2b(start) + e)
+    out = bytearray(interim_bytes(desc) + s2b(start) + e)
     for n, v in desc["headers"]:
         out += s2b(n + ": " + v) + e
     out += e
